@@ -297,6 +297,9 @@ func genC19(g *Rng, tier string, emit func(Op)) {
 	for pa := 1; pa < 14; pa++ {
 		for pb := 1; pb < 14; pb++ {
 			emit(Op{"ref": true, "op": "crt", "class": "exh", "a": hxi(int64(g.intn(pa))), "pa": hxi(int64(pa)), "b": hxi(int64(g.intn(pb))), "pb": hxi(int64(pb))})
+			emit(Op{"ref": true, "op": "crt", "class": "exh-unreduced", "fkey": "C19/crt-unreduced", "a": hxi(int64(g.intn(pa) + pa*(1+g.intn(4)))), "pa": hxi(int64(pa)), "b": hxi(int64(g.intn(pb))), "pb": hxi(int64(pb))})
+			emit(Op{"ref": true, "op": "crt", "class": "exh-unreduced", "fkey": "C19/crt-unreduced", "a": hxi(int64(g.intn(pa))), "pa": hxi(int64(pa)), "b": hxi(int64(g.intn(pb) + pb*(1+g.intn(4)))), "pb": hxi(int64(pb))})
+			emit(Op{"ref": true, "op": "crt", "class": "exh-negative", "fkey": "C19/crt-unreduced", "a": hxi(-int64(g.intn(3*pa))), "pa": hxi(int64(pa)), "b": hxi(-int64(g.intn(3*pb))), "pb": hxi(int64(pb))})
 		}
 	}
 	// random large operands
